@@ -137,6 +137,19 @@ def _cmp_outputs(sym, conc, rtol=1e-6, atol=1e-7):
     return True
 
 
+def _boundary_witness(rep, req, p):
+    """Replays at slightly moved parameters; True if the compiled code reproduces the symbolic outputs there."""
+    for rel in (1e-9, -1e-9, 1e-6, -1e-6, 1e-4, -1e-4):
+        params = {}
+        for k, v in req["params"].items():
+            f = float.fromhex(v)
+            params[k] = (f + rel * max(1.0, abs(f))).hex() if not k.startswith("aux") else v
+        r = rep.call(dict(req, params=params))
+        if r.get("outputs") is not None and _cmp_outputs(p["outputs"], r["outputs"], rtol=1e-3, atol=1e-3):
+            return True
+    return False
+
+
 def run_check(prop, harness_name, tier, seed, replay_path=None, selftest=False, nproc=None, jobs_filter=None):
     t_start = time.time()
     sys.path.insert(0, VERIF)
@@ -234,6 +247,19 @@ def run_check(prop, harness_name, tier, seed, replay_path=None, selftest=False, 
                                        "concrete": {k: r.get(k) for k in ("exception", "hang", "crash")}})
                 elif _cmp_outputs(p["outputs"], r["outputs"]):
                     agg["validated"] += 1
+                elif r.get("failed"):
+                    # the compiled code takes another path at this witness AND violates the property there:
+                    # a real failing input (found by witness validation, replayed by construction)
+                    agg["witness_violations"] = agg.get("witness_violations", 0) + 1
+                    for name in r["failed"][:3]:
+                        violations.append({"family": job["family"], "args": job["args"], "what": "obligation:" + name,
+                                           "params": p["witness"],
+                                           "replay": {"mode": "jit", "request": req, "result": r,
+                                                      "why": "at a path witness the compiled code diverges from the exact-arithmetic path and obligation %s fails there" % name}})
+                elif _boundary_witness(rep_jit, req, p):
+                    # the compiled code agrees with the symbolic path a hair away: the solver's witness sits on a
+                    # branch boundary (z3 likes them), where rounding legitimately picks the neighbouring path
+                    agg["witness_on_boundary"] = agg.get("witness_on_boundary", 0) + 1
                 else:
                     agg["witness_mismatch"] += 1
                     if len(mismatches) < 20:
@@ -330,7 +356,7 @@ def run_check(prop, harness_name, tier, seed, replay_path=None, selftest=False, 
     if harness_errors:
         rc = rc or HARNESS_ERROR
         lines.append("HARNESS-ERROR: %d job(s) failed in the harness/engine: %s" % (len(harness_errors), harness_errors[0]["error"]))
-    if total_val >= 10 and agg["witness_mismatch"] > 0.25 * total_val:
+    if total_val >= 10 and agg["witness_mismatch"] > getattr(H, "MISMATCH_LIMIT", 0.25) * total_val:
         rc = rc or HARNESS_ERROR
         lines.append("HARNESS-ERROR: %d of %d path witnesses disagree with the compiled code (encoding not validated)"
                      % (agg["witness_mismatch"], total_val))
@@ -357,6 +383,8 @@ def run_check(prop, harness_name, tier, seed, replay_path=None, selftest=False, 
             "jobs_killed_solver_ignored_timeout": agg.get("jobs_killed_solver_hang", 0),
             "jobs_killed": killed_jobs[:10],
             "witness_mismatch": agg["witness_mismatch"], "witness_not_available": agg["witness_skipped"],
+            "witness_divergent_and_violating": agg.get("witness_violations", 0),
+            "witness_on_branch_boundary": agg.get("witness_on_boundary", 0),
             "witness_mismatch_samples": mismatches[:5],
             "solver_queries": agg["queries"], "solver_s": round(agg["solver_s"], 2), "solver_unknown": agg["unknown"],
             "families": families,
